@@ -183,6 +183,37 @@ class Ctx:
         cache[cf.mangled] = res
         return res
 
+    def trivial_function(self, callnode):
+        """(params, key) if the callee is a free / static function defined in the analysed sources whose whole body is
+        `return <expression over its parameters>;` -- a named sub-expression (conjugate-if-complex, a sign conversion, a
+        pole average ...).  Calls to such helpers denote the returned expression with the arguments substituted, so that a
+        formula or guard rule sees the same value whether or not the maintainer gave the sub-expression a name."""
+        if self.db is None:
+            return None
+        cf = self.db.callee_fn(callnode)
+        if cf is None or cf.body is None or cf.body < 0 or cf.d.get("virtual") or cf.kind in ("ctor", "dtor") or cf.rec:
+            return None
+        from . import pipeline
+        if not (cf.file or "").startswith(pipeline.REPO.rstrip("/") + "/"):
+            return None
+        cache = self.db.__dict__.setdefault("_trivfn_cache", {})
+        if cf.mangled in cache:
+            return cache[cf.mangled]
+        cache[cf.mangled] = None          # (recursion guard)
+        res = None
+        b = cf.nodes[cf.body]
+        st = [c for c in b["body"] if c is not None and cf.nodes[c]["k"] != "null"] if b["k"] == "block" else []
+        if len(st) == 1 and cf.nodes[st[0]]["k"] == "return" and cf.nodes[st[0]].get("sub") is not None:
+            try:
+                k = Ctx(cf, self.db).key(cf.nodes[st[0]]["sub"])
+            except AnalysisBroken:
+                k = None
+            if k is not None and not key_contains(k, lambda y: y[0] in ("var", "field", "this", "global", "unknown", "ref", "lambda", "new", "throw", "mcall") or
+                                                   (y[0] == "un" and y[1] in ("++", "--", "++post", "--post")) or (y[0] == "op" and len(y) > 1 and y[1] in ASSIGN_OPS)):
+                res = ([("param", p_["d"], p_["n"]) for p_ in cf.params], k)
+        cache[cf.mangled] = res
+        return res
+
     def single_assignment(self, d):
         """True iff local d is initialised at its declaration and never modified afterwards."""
         v = self.decls.get(d)
@@ -349,6 +380,10 @@ class Ctx:
                     ta = (n.get("callee") or "").split("<", 1)[1]
                     nm = "%s<%s>" % (nm, ta.split(",")[0].split(">")[0].strip())
                 r = ("call", nm) + args
+                tf = self.trivial_function(n)
+                if tf is not None and len(tf[0]) == len(args):
+                    sub_ = {p_[:2]: a_ for p_, a_ in zip(tf[0], args)}
+                    r = key_subst(tf[1], lambda y: sub_.get(y[:2]) if y[0] == "param" else None)
         elif k == "construct":
             args = tuple(K(a) for a in n["args"])
             # std::complex(x) with defaulted imaginary part is x for ring purposes; keep generic here
